@@ -216,7 +216,7 @@ def config(prop, tier, scn, variant):
 SCENARIOS = dict(
     C01=dict(quick=['gauss', 'two_split', 'wrap_net', 'half', 'g3_pool_s', 'plateau', 'nlb',
                     'funnel_net', 'ring_net', 'ring_split_net:resume', 'const:resume',
-                    'wrap_pool_s:resume', 'g5:resume', 'net2_tanh:resume'],
+                    'wrap_pool_s:resume', 'g5:resume', 'net2_tanh:resume', 'cross_split:resume'],
              thorough=['gauss', 'gauss_net', 'two', 'ring_net', 'half', 'plateau', 'wrap',
                        'wrap_net', 'g3_pool_s', 'two_pool_s', 'b7_update', 'blob_two_obj', 'b1',
                        'funnel_net', 'funnel', 'nlb', 'nlb_ring', 'empty', 'two_split', 'ring_split_net',
@@ -229,14 +229,17 @@ SCENARIOS = dict(
              thorough=['gauss', 'gauss_t', 'gauss_d', 'gauss_net:resume+nshell', 'two', 'ring_net', 'half',
                        'plateau', 'wrap_net', 'g3_pool_s', 'b7_update', 'b1', 'blob_f32_inplace',
                        'nlb', 'funnel_net', 'empty', 'empty_d:resume+toggle/0/2+toggle/1/2+nshell',
-                       'two_split', 'ring_split_net:resume+nshell', 'const', 'g5', 'net2_tanh:resume+nshell']),
+                       'two_split', 'ring_split_net:resume+nshell', 'const', 'g5', 'net2_tanh:resume+nshell',
+                       'enlarge25:resume+nshell']),
     C03=dict(quick=['blob_float', 'blob_int_vec', 'blob_two_obj', 'blob_array_pool',
-                    'blob_struct_dictfn', 'blob_f32_inplace', 'blob_float_b1', 'blob_two_b2_vec'],
+                    'blob_struct_dictfn', 'blob_f32_inplace', 'blob_float_b1', 'blob_two_b2_vec',
+                    'vec_pool:resume'],
              thorough=['blob_float', 'blob_int_vec', 'blob_two_obj', 'blob_array_pool',
                        'blob_struct_dictfn', 'blob_f32_inplace', 'blob_float_b1', 'blob_array_b1',
                        'blob_two_b2_vec', 'blob_struct_b1', 'vec_inplace', 'obj_array_vec',
-                       'dictfn_vec_net', 'pool_l3', 'gauss', 'wrap_net']),
-    C05=dict(quick=['gauss_s', 'gauss_d', 'wrap_net', 'blob_two_obj', 'net2_tanh', 'two_split', 'nlb',
+                       'dictfn_vec_net', 'pool_l3', 'gauss', 'wrap_net', 'vec_pool', 'cross_split:resume']),
+    C05=dict(quick=['gauss_s', 'gauss_d', 'wrap_net', 'blob_two_obj',
+                    'net2_tanh:resume/0/2+resume/1/2', 'two_split', 'nlb',
                     'b7_update:resume/0/2+resume/1/2+slices/0/2+slices/1/2',
                     'const:resume/0/2+resume/1/2'],
              thorough=['gauss', 'gauss_s', 'gauss_d', 'gauss_net', 'two', 'ring_net', 'half', 'wrap',
@@ -244,18 +247,21 @@ SCENARIOS = dict(
                        'blob_array_pool', 'blob_struct_dictfn', 'blob_f32_inplace',
                        'dictfn_vec_net', 'b7_update', 'nlb', 'nlb_ring', 'b1', 'empty_d', 'two_split',
                        'ring_split_net', 'const', 'nuisance3_net', 'funnel_net', 'g5', 'net2_tanh']),
-    C10=dict(quick=['gauss_s', 'b7_update', 'half', 'gauss_d', 'nlb', 'const:slices+resume'],
+    C10=dict(quick=['gauss_s', 'b7_update', 'half', 'gauss_d', 'nlb', 'const:slices+resume',
+                    'cross_split:resume'],
              thorough=['gauss', 'gauss_s', 'gauss_d', 'b7_update', 'half', 'b1', 'two', 'wrap_net',
-                       'blob_int_vec', 'pool_l3']),
-    C11=dict(quick=['gauss_s', 'blob_array_pool', 'wrap_net', 'pool_l3', 'nuisance'],
+                       'blob_int_vec', 'pool_l3', 'cross_split', 'vec_pool', 'wrap_pool_s', 'g5']),
+    C11=dict(quick=['gauss_s', 'blob_array_pool', 'wrap_net', 'pool_l3', 'nuisance', 'vec_pool'],
              thorough=['gauss', 'gauss_s', 'gauss_net', 'blob_array_pool', 'pool_l3', 'wrap_net',
                        'two', 'nofile', 'blob_two_obj', 'nuisance', 'nuisance3_net', 'half', 'g3_pool_s',
                        'wrap_pool_s']),
-    C12=dict(quick=['gauss_t', 'gauss_d', 'wrap_net', 'blob_two_obj', 'empty_d:nshell'],
+    C12=dict(quick=['gauss_t', 'gauss_d', 'wrap_net', 'blob_two_obj', 'empty_d:nshell',
+                    'enlarge25:nshell'],
              thorough=['gauss', 'gauss_t', 'gauss_d', 'b7_update',
                        'b1:toggle-resume/0/2+toggle-resume/1/2+nshell', 'two', 'half', 'wrap_net',
                        'blob_float', 'blob_two_obj',
-                       'gauss_net:toggle-resume/0/2+toggle-resume/1/2+nshell', 'empty', 'empty_d']),
+                       'gauss_net:toggle-resume/0/2+toggle-resume/1/2+nshell', 'empty', 'empty_d',
+                       'enlarge25:toggle-resume/0/2+toggle-resume/1/2+nshell']),
 )
 
 LEVEL = 'model_checking'
